@@ -617,6 +617,11 @@ def rule_G10(ck):
     for n in walk_local(fn):
         if isinstance(n, ast.If) and isinstance(n.test, ast.Call) and norm_text(n.test.func) == "isinstance" and norm_text(n.test.args[0]) == "insn":
             handled.add(norm_text(n.test.args[1]))
+        if isinstance(n, ast.Match) and norm_text(n.subject) == "insn":       # match insn: case Instruction(): ...
+            for case in n.cases:
+                for pat in (case.pattern.patterns if isinstance(case.pattern, ast.MatchOr) else [case.pattern]):
+                    if isinstance(pat, ast.MatchClass):
+                        handled.add(norm_text(pat.cls))
         if isinstance(n, ast.Assert) and norm_text(n.test) == "False":
             has_else_assert = True
     ck.instance(("dispatch", "compile_block"), {"statement classes built by the parser": sorted(universe), "handled": sorted(handled)}, fn="compiler::Compiler.compile_block")
